@@ -420,6 +420,93 @@ def binary_operation(a):
     a.note_cut("binary_operation", ex)
 
 
+def binary_records(a):
+    """C09 / C10 / C02: what binary_operation writes down per comparison outcome. The record's `comparison` is the operator pair the
+    function was given; its `from` is the LEFT value of the outcome being reported (pair.lhs / ListIn.lhs / an element of QueryIn.diff /
+    the unresolved left value), its `to` for a plain comparison the RIGHT value of the same outcome; the (value, status) entry handed back
+    carries that same left value"""
+    PAIR = struct_fields(a.src, "rules/eval/operators.rs", "LhsRhsPair")
+    QIN = struct_fields(a.src, "rules/eval/operators.rs", "QueryIn")
+    LIN = struct_fields(a.src, "rules/eval/operators.rs", "ListIn")
+    NC = struct_fields(a.src, "rules/eval/operators.rs", "NotComparable")
+    ex = a.exec(r"(?:(?:rules::)?eval::)?binary_operation", {"query": m_result_opq, "compare": m_result_opq, "next": mirexec.m_iter_next},
+                log=("push",), unroll=1, max_paths=60000, deepen=False)
+    a.fns.append("rules::eval::binary_operation (records)")
+    cmp_arg = ex.arg_env["_3"]
+    lhs_suffix = {"Value": [f".{PAIR.index('lhs')}"], "ValueIn": [f".{PAIR.index('lhs')}"], "ListIn": [f".{LIN.index('lhs')}"]}
+    rhs_suffix = {"Value": [f".{PAIR.index('rhs')}"], "ValueIn": [f".{PAIR.index('rhs')}"], "ListIn": [f".{LIN.index('rhs')}"]}
+    bad, nrec = [], 0
+    for p in ex.paths:
+        cmpc = calls(p, "compare")
+        if not cmpc or cmpc[0][3][0] != "enum":
+            continue
+        vec = payload(ex, cmpc[0][3][3]["Ok"], "Result")
+        outer = iterations(ex, p, it_filter=lambda ev: bool(ev[2]) and ev[2][0] == vec)
+        idx_of = {i: elem for k, elem, tag, i in outer}
+        cur, probs, last_from = None, [], None
+        for i, e in enumerate(p.events):
+            if i in idx_of:
+                cur, last_from = idx_of[i], None
+            if e[0] != "call":
+                continue
+            if e[1] == "end_record" and len(e[2]) > 2 and e[2][2][0] == "variant" and e[2][2][2] == "ClauseValueCheck":
+                cl = e[2][2][3][0]
+                if cl[0] != "variant" or cl[2] not in ("Comparison", "InComparison"):
+                    continue
+                nrec += 1
+                f = cl[3][0][2] if cl[3] and cl[3][0][0] == "struct" else {}
+                if f.get("comparison") != cmp_arg:
+                    probs.append("a record carries another operator pair than the one given")
+                frm = f.get("from")
+                fv = frm[3][0] if frm is not None and frm[0] == "variant" and frm[3] else None
+                o, ks = _origin(ex, fv) if fv is not None else (None, [])
+                co, cks = _origin(ex, cur) if cur is not None else (None, None)
+                if cur is None or o != co or ks[:len(cks)] != cks:
+                    probs.append("a record's `from` is not taken from the outcome being reported")
+                    continue
+                rest = ks[len(cks):]
+                last_from = fv
+                # which outcome kind, and is it the LEFT value?
+                if rest[:1] == ["as LhsUnresolved.0"]:
+                    ok = frm[2] == "UnResolved" and rest == ["as LhsUnresolved.0"]
+                elif rest[:2] == ["as ComparisonResult.0", "as RhsUnresolved.1"]:
+                    ok = frm[2] == "Resolved" and len(rest) == 2
+                elif rest[:2] == ["as ComparisonResult.0", "as NotComparable.0"]:
+                    ok = frm[2] == "Resolved" and rest[2:] == [f".{NC.index('pair')}", f".{PAIR.index('lhs')}"]
+                elif rest[:2] == ["as ComparisonResult.0", "as Fail.0"] and len(rest) >= 4:
+                    kind = rest[2][3:-2] if rest[2].startswith("as ") else None
+                    if kind == "QueryIn":
+                        ok = frm[2] == "Resolved" and rest[3] == f".{QIN.index('diff')}" and len(rest) == 5 and rest[4].startswith("[")
+                    else:
+                        ok = frm[2] == "Resolved" and kind in lhs_suffix and rest[3:] == lhs_suffix[kind]
+                        if ok and kind == "Value":
+                            to = f.get("to")
+                            tv = to[3].get("Some") if to is not None and to[0] == "enum" else None
+                            tvv = tv[3][0] if tv is not None and tv[0] == "variant" and tv[2] == "Resolved" and tv[3] else None
+                            to_o, to_ks = _origin(ex, tvv) if tvv is not None else (None, [])
+                            ok = to_o == co and to_ks == cks + rest[:3] + rhs_suffix["Value"]
+                else:
+                    ok = False
+                if not ok:
+                    probs.append("a record's `from` / `to` is not the left / right value of the outcome being reported")
+            elif e[1] == "push" and len(e[2]) == 2 and e[2][1][0] == "tuple" and len(e[2][1][1]) == 2 and e[2][1][1][1][0] == "enum":
+                val = e[2][1][1][0]
+                vv = val[3][0] if val[0] == "variant" and val[3] else None
+                st = e[2][1][1][1][2]
+                if last_from is not None and vv != last_from and st == str(a.F):
+                    probs.append("the value handed back differs from the value recorded")
+        bad.append(f"(and {pc_term(p.pc)} (not {'false' if probs else 'true'}))")
+    c = a.discharge("binary_operation/records", ex, bad,
+                    f"binary_operation ({nrec} comparison records over all paths, <= 1 outcome per loop): every record carries the operator pair given; "
+                    "`from` is the left value of the outcome being reported (the unresolved left value / pair.lhs / ListIn.lhs / an element of "
+                    "QueryIn.diff), `to` of a plain comparison the right value of the same outcome; the FAIL entry handed back is that same left value")
+    if c:
+        import mirflow
+        c["replay"] = mirflow.replay_clause_reports(a)
+        c["reproduced"] = c["replay"].get("reproduced", False)
+        a.candidates.append(c)
+
+
 def replay_binary(a):
     exe = a.cli()
     if not exe:
@@ -2277,7 +2364,9 @@ def gac_comparator_pair(a):
 
 SITES = {
     "C01": [guard_block, type_block, binary_operation, operator_dispatch, match_value, common_operator, contained_in, eq_operation, in_operation, list_map_equality, value_partial_eq, flip_listin, unary_empty_on_expr, flip_queryin, gac_comparator_pair, clause_dispatch, function_args],
-    "C02": [guard_block, type_block, record_tracker, unary_empty_on_expr],
+    "C02": [guard_block, type_block, record_tracker, unary_empty_on_expr, binary_records],
+    "C09": [binary_records],
+    "C10": [binary_records],
     "C03": [flip_closure, negated_compare_wrapper, parser_clause_wiring, flip_listin, unary_empty_on_expr, flip_queryin, gac_comparator_pair],
     "C13": [flip_closure, operator_dispatch, binary_operation, match_value, common_operator, contained_in, eq_operation, in_operation, list_map_equality, value_partial_eq, flip_listin, flip_queryin],
     "C18": [function_dispatch, elementwise, join_sequence, function_args],
